@@ -68,20 +68,27 @@ pub fn run(report: &Report, thorough: bool) -> Evidence {
         // (db, alphabet, depth, english, initial store)
         let store = r#"{"as":"আশ","a":"া","e":"ে"}"#;
         let d = if thorough { 8 } else { 6 };
-        let mut plans: Vec<(String, &str, usize, bool, Option<&str>)> = vec![
-            (tiny.clone(), "aser", d, false, None),
-            (tiny.clone(), "aser", d - 1, true, Some(store)),
-            (tiny.clone(), "ae:`.", d - 1, true, None),
-            (tiny.clone(), "ae:`.", d - 1, false, Some(store)),
+        // last element: the remaining options, bit 0 = ANSI on, bit 1 = smart quotes off
+        let mut plans: Vec<(String, &str, usize, bool, Option<&str>, u8)> = vec![
+            (tiny.clone(), "aser", d, false, None, 0),
+            (tiny.clone(), "aser", d - 1, true, Some(store), 0),
+            (tiny.clone(), "ae:`.", d - 1, true, None, 0),
+            (tiny.clone(), "ae:`.", d - 1, false, Some(store), 0),
         ];
-        plans.push((real_db(), "aser", if thorough { 6 } else { 4 }, true, Some(store)));
-        // dictionary suggestions off (single-string mode): the last plan; marked by the alphabet "ak(.:`"
-        plans.push((tiny.clone(), "ak(.:`", d - 1, false, None));
+        plans.push((real_db(), "aser", if thorough { 6 } else { 4 }, true, Some(store), 0));
+        // dictionary suggestions off (single-string mode): marked by the alphabet "ak(.:`"
+        plans.push((tiny.clone(), "ak(.:`", d - 1, false, None, 0));
         // letter case: the memo must not confuse words that differ in the case of a letter (real data)
-        plans.push((real_db(), "tTa", if thorough { 5 } else { 4 }, false, None));
+        plans.push((real_db(), "tTa", if thorough { 5 } else { 4 }, false, None, 0));
+        // "under every phonetic configuration": ANSI and smart quotes (quote keys in the alphabet), alone and together
+        plans.push((tiny.clone(), "aser", d - 1, true, Some(store), 1));
+        plans.push((tiny.clone(), "ae\"'.", d - 1, false, None, 0));
+        plans.push((tiny.clone(), "as\"`:", d - 2, true, Some(store), 1));
+        plans.push((tiny.clone(), "ae\"'.", d - 2, false, Some(store), 2));
+        plans.push((tiny.clone(), "ak(.:`", d - 2, true, None, 3));
         let mut total = HistStats::default();
         let ref_runs = AtomicU64::new(0);
-        for (pi, (db, alpha, depth, english, init_store)) in plans.iter().enumerate() {
+        for (pi, (db, alpha, depth, english, init_store, extra)) in plans.iter().enumerate() {
             let mut keys: Vec<Ev> = alpha.chars().map(Ev::ch).collect();
             // a key without a character (keypad Enter): changes nothing, so it must not change the suggestion either
             keys.push(Ev::key(crate::keys::by_name("VC_KP_ENTER").unwrap().code));
@@ -96,6 +103,8 @@ pub fn run(report: &Report, thorough: bool) -> Evidence {
             let mut o = Opts::phonetic(db, "");
             o.english = *english;
             o.psugg = *alpha != "ak(.:`";
+            o.ansi = extra & 1 != 0;
+            o.smart = extra & 2 == 0;
             thread_local! {
                 static TWIN: std::cell::RefCell<Option<(String, Ctx)>> = const { std::cell::RefCell::new(None) };
                 static REF: std::cell::RefCell<HashMap<String, Result<Rend, String>>> = std::cell::RefCell::new(HashMap::new());
@@ -244,7 +253,7 @@ pub fn run(report: &Report, thorough: bool) -> Evidence {
         transitions += total.transitions;
         parts.insert(
             "history_bfs".into(),
-            json!({"plans": plans.iter().map(|(db, a, d, e, s)| json!({"db": db, "alphabet": a, "depth": d, "english": e, "initial_store": s})).collect::<Vec<_>>(),
+            json!({"plans": plans.iter().map(|(db, a, d, e, s, x)| json!({"db": db, "alphabet": a, "depth": d, "english": e, "initial_store": s, "ansi": x & 1 != 0, "smart_quotes": x & 2 == 0})).collect::<Vec<_>>(),
                    "states": total.states, "transitions": total.transitions, "replayed_events": total.replayed_events, "distinct_outcomes": total.distinct_outcomes,
                    "default_executions_run": ref_runs.load(Ordering::Relaxed)}),
         );
